@@ -29,6 +29,19 @@ def _sim():
     return None
 
 
+def _real(fn, *a, **k):
+    """Call through to a real object from inside a proxy; an exception it
+    raises belongs to the simulated program, not to the harness."""
+    try:
+        return fn(*a, **k)
+    except BaseException as e:
+        try:
+            e._sim_passthrough = True
+        except Exception:
+            pass
+        raise
+
+
 def msg_id(x):
     if isinstance(x, tuple) and x:
         return x[0] if isinstance(x[0], (int, str)) else "t"
@@ -378,19 +391,19 @@ class _WaveWriteProxy:
             st = FILE_STALL.get("plan")
             if st is not None:
                 st.maybe_stall(s)   # slow disk
-        return self._real.writeframes(data)
+        return _real(self._real.writeframes, data)
 
     def writeframesraw(self, data):
         s = _sim()
         if s is not None:
             s.step("wav.write", (self._label, len(data)))
-        return self._real.writeframesraw(data)
+        return _real(self._real.writeframesraw, data)
 
     def close(self):
         s = _sim()
         if s is not None:
             s.step("wav.close", self._label)
-        return self._real.close()
+        return _real(self._real.close)
 
     def __getattr__(self, name):
         return getattr(self._real, name)
@@ -419,7 +432,7 @@ class _WaveReadProxy:
             st = FILE_STALL.get("plan")
             if st is not None:
                 st.maybe_stall(s)
-        d = self._real.readframes(n)
+        d = _real(self._real.readframes, n)
         w = self._real.getsampwidth() * self._real.getnchannels()
         self.served_frames += len(d) // max(1, w)
         if s is not None:
@@ -453,7 +466,7 @@ class _FileReadProxy:
             st = FILE_STALL.get("plan")
             if st is not None:
                 st.maybe_stall(s)
-        d = self._real.read(n)
+        d = _real(self._real.read, n)
         self.served_bytes += len(d)
         if s is not None:
             s.note("file.data", len(d))
